@@ -46,11 +46,15 @@ fn dispatch(prop: &str, ctx: &Ctx, replay: Option<&[String]>) -> bool {
 
 fn main() {
   let args: Vec<String> = std::env::args().collect();
-  if args.len() < 5 {
+  if args.len() < 4 || (args.len() < 5 && args[1] != "cold") {
     eprintln!("usage: tyme-mc run <Cxx> <quick|thorough> <seed> <result.json> | replay <Cxx> <result.json> <check> <args...>");
     std::process::exit(2);
   }
   engine::silence_panics();
+  if args[1] == "cold" {
+    props::c10::cold_main(args[2] == "quick", args[3].parse().unwrap());
+    return;
+  }
   match args[1].as_str() {
     "run" => {
       let tier = if args[3] == "thorough" { Tier::Thorough } else { Tier::Quick };
